@@ -208,8 +208,13 @@ extern "C" void harness()
 	vf_havoc(g->store[0], sizeof(T));
 	new (g->store[0]) T(); m.alive[0] = true;
 #if OBJ == 0
-	{	// push the source's generation counter to an arbitrary position (not at the wrap: that is C19)
-		uint32_t c0 = vf_nondet_u32(); vf_assume(c0 < 0xfffffff0u);
+	{	// push the source's generation counter to an arbitrary position (not at the wrap unless WRAPC: that is C19)
+		uint32_t c0 = vf_nondet_u32();
+#ifdef WRAPC
+		vf_assume(c0 >= 0xfffffff8u);      // C19: within 8 of the wrap, so that additions, copies into it and assignments to it straddle the wrap
+#else
+		vf_assume(c0 < 0xfffffff0u);
+#endif
 #ifdef INSTRUMENTED_CV
 		obj(0)->currentCounter.value = c0;
 #else
@@ -347,7 +352,22 @@ extern "C" void harness()
 	for(int i = 0; i < NO; i++) if(m.alive[i]) {
 		g_adder_target = obj(i);
 		obj(i)->append(Cb(7777u));
+#ifdef INSTRUMENTED_CV
+		const uint32_t cbefore = obj(i)->currentCounter.value;
+#else
+		const uint32_t cbefore = obj(i)->currentCounter;
+#endif
 		g_tr.clear(); (*obj(i))(1u);
+#ifdef INSTRUMENTED_CV
+		const uint32_t cafter = obj(i)->currentCounter.value;
+#else
+		const uint32_t cafter = obj(i)->currentCounter;
+#endif
+		if(cafter < cbefore) {
+			// the counter wrapped DURING this invocation: C19 allows exactly this invocation to also call what was added during it
+			vf_assert((g_tr.n == m.n[i] + 1 || (g_tr.n == m.n[i] + 2 && g_tr.e[m.n[i] + 1].id == 7778u)) && g_tr.e[m.n[i]].id == 7777u, 131);
+		}
+		else
 		vf_assert(g_tr.n == m.n[i] + 1 && g_tr.e[m.n[i]].id == 7777u, 131);
 		g_adder_target = nullptr;
 		g_tr.clear(); (*obj(i))(2u);
